@@ -138,7 +138,7 @@ def main():
     import bisect
     ss = [s for s in ss if lo_line <= bisect.bisect_right(offs, s[0]) <= hi_line][:mx]
     print(f"{rel}: {len(ss)} mutants, checks {ids}, repo {head}", flush=True)
-    env = dict(os.environ, VERIF_REPO=wt, VERIF_NO_CONFIRM="1")
+    env = dict(os.environ, VERIF_REPO=wt, VERIF_NO_CONFIRM="1", VERIF_FAILFAST="1")
     killed = survived = 0
     try:
         for k, (a, b, new, kind) in enumerate(ss):
